@@ -12,7 +12,10 @@ def tu_check(tu):
     nr = alloc.analyse_null_results(tu)
     from ..rules import shiftbounds
     sb = shiftbounds.analyse_tu(tu)
-    from ..rules import realtype
+    from ..rules import realtype, dangling
+    dg = dangling.analyse_tu(tu)
+    r["stats"]["borrowed_releases"] = dg["stats"]["borrowed_releases"]
+    r["findings"] = r["findings"] + dg["findings"]
     rt = realtype.analyse_tu(tu)
     r["stats"]["real_type_tests"] = rt["stats"]["real_type_tests"]
     r["findings"] = r["findings"] + rt["findings"] + c["findings"] + sp["findings"] + sf["findings"] + sc["findings"] + nr["findings"] + sb["findings"]
@@ -27,7 +30,7 @@ def tu_check(tu):
 
 def run(tier="quick", seed=0, use_cache=True):
     res = engine.Result("C16")
-    res.rules = ["LOCAL-REF", "CURSOR-HOLD", "SLOT-PAIR", "RELEASE-ATTACHED", "SETITEM-FRESH", "SPLIT-COMMIT", "NULL-RESULT", "SHIFT-BOUNDS", "REAL-TYPE"]
+    res.rules = ["LOCAL-REF", "CURSOR-HOLD", "SLOT-PAIR", "RELEASE-ATTACHED", "SETITEM-FRESH", "SPLIT-COMMIT", "NULL-RESULT", "SHIFT-BOUNDS", "REAL-TYPE", "USE-AFTER-RELEASE"]
     res.explanation = (
         "Ownership dataflow (alias classes with an owned-reference count, "
         "NULL-ness refinement, out-parameter and returns-new-reference "
@@ -87,6 +90,8 @@ def run(tier="quick", seed=0, use_cache=True):
     res.floor("in-place array shifts with a decided bound (OO)", oo["shift_bounds_decided"], 4)
     res.floor("real-type tests against the unit's type objects (OO)", oo["real_type_tests"], 4)
     res.count("REAL-TYPE", sum(r["stats"]["real_type_tests"] for r in out.values()))
+    res.floor("releases of references borrowed from a container field (OO)", oo["borrowed_releases"], 3)
+    res.count("USE-AFTER-RELEASE", sum(r["stats"]["borrowed_releases"] for r in out.values()))
     res.count("SHIFT-BOUNDS", sum(r["stats"]["shift_bounds_decided"] for r in out.values()))
     res.count("NULL-RESULT", sum(r["stats"]["null_result_sites"] for r in out.values()))
     res.floor("key/value slot copies in object families", slot, 60)
